@@ -54,6 +54,7 @@ type TunnelPlan struct {
 	//  settle      the same, used between two steps of a compound ending
 	//  hostsay:<b> the remote desktop host writes <b> now
 	//  partial:<n> the first n bytes of a 110-byte DATA packet
+	//  ping        a websocket PING control frame
 	//  send:<step> the canonical packet hs | tc | ta | cc, without waiting for its answer
 	Chunks      [][]byte // what the backend of this tunnel writes after accepting
 	BackendEnds bool     // backend closes after its chunks
@@ -303,6 +304,11 @@ func runClient(w *World, h http.Handler, p TunnelPlan, o *TunnelObs) {
 			// write is ordered after the script steps before it)
 			if o.BackendIdx >= 0 && o.BackendIdx < len(w.Backends) {
 				w.Backends[o.BackendIdx].Conn.Write([]byte(op[8:]))
+			}
+		case op == "ping":
+			// a websocket PING control frame (clients and proxies send them to keep the connection alive)
+			if c.Kind == "ws" {
+				c.Conn.Write(wsFrame(9, true, []byte("keepalive")))
 			}
 		case strings.HasPrefix(op, "send:"):
 			// one packet of the canonical sequence (hs, tc, ta, cc), sent without waiting for its answer
